@@ -71,6 +71,8 @@ class Adapter:
         em = event.EventMap()
         for s in srcs:
             em.add(s)
+            if (n + cfg["dw"]) % 2:
+                list(em.sources())       # a query while the map is being filled changes nothing
         mon = EventMonitor(em, trigger=cfg.get("trigger", "level"), data_width=cfg["dw"], alignment=cfg["al"])
         if n >= 100:
             # a monitor with many events must still be hardware (an elaboration that dies is not "for any number")
